@@ -461,8 +461,31 @@ def check_shapes(ctx, quick):
             ifr = teneva.interface(Y, norm=None, ltr=False)
             if len(ifl) != d + 1 or len(ifr) != d + 1 or float(np.ravel(ifl[-1])[0]) != float(Fd.sum()) or float(np.ravel(ifr[0])[0]) != float(Fd.sum()):
                 bad.append('interface')
+        # element and gradient: d(entry)/d(core k slice i_k) is the outer product of the left and right interface vectors;
+        # cores written partly with integer literals (integer dtype) and partly with non-integers denote the tensor just the same
+        if d >= 2 and int(np.prod(n)) <= 4000:
+            Ym = [G.astype(np.int64) if (k_ + t) % 2 == 0 else G + 0.5 * (np.arange(G.size).reshape(G.shape) % 2) for k_, G in enumerate(Y)]
+            for Yg, tag in ((Y, 'float cores'), (Ym, 'integer-typed and float cores mixed')):
+                idx = [int(rng.integers(k)) for k in n]
+                val, grad = teneva.get_and_grad(Yg, idx)
+                Yf = [np.asarray(G, dtype=float) for G in Yg]
+                ref_val = F.dense(Yf)[tuple(idx)]
+                okg = abs(float(val) - ref_val) <= 1e-12 * (1 + abs(ref_val)) and len(grad) == d
+                for k_ in range(d if okg else 0):
+                    L = np.ones((1,))
+                    for c_ in range(k_):
+                        L = L @ Yf[c_][:, idx[c_], :]
+                    Rv = np.ones((1,))
+                    for c_ in range(d - 1, k_, -1):
+                        Rv = Yf[c_][:, idx[c_], :] @ Rv
+                    gk = np.asarray(grad[k_], dtype=float)
+                    refg = np.zeros(Yf[k_].shape)
+                    refg[:, idx[k_], :] = np.outer(L, Rv)
+                    okg = okg and gk.shape == refg.shape and np.abs(gk - refg).max() <= 1e-12 * (1 + np.abs(refg).max())
+                if not okg:
+                    bad.append('get_and_grad [%s]' % tag)
         for b_ in bad:
-            ctx.violation('algebra:' + b_.split('(')[0], 'shape %s ranks %s: %s differs from the definition / the dense reference' % (n, r, b_), case={'n': n, 'r': r})
+            ctx.violation('algebra:' + b_.split('(')[0].split(' [')[0], 'shape %s ranks %s: %s differs from the definition / the dense reference' % (n, r, b_), case={'n': n, 'r': r})
 
 
 def check_huge(ctx, quick):
